@@ -95,8 +95,24 @@ def h_roundtrip(ctx, small=None):
     return Outcome(f"{zone}{'' if small is None else ':' + ('compressible' if cls != 'sha-stream' else 'stored')}:{'ok' if d.ok else 'rej:' + d.etype}", vs, nontrivial=(cls, enc, form, n))
 
 
+def flushed_stream(kind, n, cls, record=8):
+    """A complete stream whose producer flushes after every short record (a streaming serializer with syncFlush): far longer than a one-shot stream
+    of the same content, and it expands by less than it is long."""
+    wb = -15 if kind.startswith("raw") else 15
+    c = zlib.compressobj(-1, zlib.DEFLATED, wb)      # the default level: a framed stream then carries the default zlib header
+    data = gen(cls, n)
+    out = []
+    for i in range(0, n, record):
+        out.append(c.compress(data[i:i + record]))
+        out.append(c.flush(zlib.Z_SYNC_FLUSH))
+    out.append(c.flush())
+    return b"".join(out)
+
+
 def stream(kind, n, cls):
     """A complete foreign stream expanding to n octets, built incrementally (never holds n octets for big n)."""
+    if kind.endswith("flushed"):
+        return flushed_stream(kind, n, cls)
     wb = -15 if kind == "raw" else 15
     c = zlib.compressobj(9, zlib.DEFLATED, wb) if kind != "zlib-default" else zlib.compressobj()
     out = []
@@ -111,9 +127,11 @@ def stream(kind, n, cls):
 
 
 def h_foreign(ctx):
-    framing = ctx.choose("framing", ["raw", "zlib-default"])
-    cls = ctx.choose("class", ["constant", "period259"])
+    framing = ctx.choose("framing", ["raw", "zlib-default", "raw-flushed", "zlib-flushed"])
+    cls = ctx.choose("class", ["constant", "period259"] if not framing.endswith("flushed") else ["sha-stream", "period259"])
     sizes = [0, 1, 100, LIMIT - 1, LIMIT, LIMIT + 1, LIMIT + 100, LIMIT + 257, LIMIT + 258, 257 * 1024, 1 << 20, 64 << 20] + ([1 << 30] if config.thorough() else [])
+    if framing.endswith("flushed"):
+        sizes = [100, 180000, 250000, LIMIT, LIMIT + 1, 300000, 600000]      # compressed lengths from a few hundred octets to about a megabyte
     n = ctx.choose("expands_to", sizes)
     form = ctx.choose("form", ["compact", "flattened"])
     # the bound is a property of decryption, not of one way of configuring it
